@@ -609,7 +609,7 @@ func c15History(c *Ctx, r *gen.R, nops int, sample bool) {
 		if op.Script != nil && r.Chance(1, 10) {
 			ab := op
 			ab.FaultAt = r.Range(1, 6)
-			fin, _ := runBounded(20*time.Second, func() {
+			fin, _ := runBounded(60*time.Second, func() {
 				defer func() {
 					if rr := recover(); rr != nil {
 						tape.Restore()
@@ -626,18 +626,18 @@ func c15History(c *Ctx, r *gen.R, nops int, sample bool) {
 			}
 		}
 		var before c15Snap // (reading the lists out draws from the source: the first library work after an aborted call)
-		if fin, blocked := runBounded(20*time.Second, func() { before = pool.snapshot() }); !fin {
+		if fin, blocked := runBounded(60*time.Second, func() { before = pool.snapshot() }); !fin {
 			c.Poison()
 			if blocked != "" {
 				c.Violate("call-blocks-because-of-earlier-calls", fmt.Sprintf("after a call that a failing source cut short (the caller recovered), the next generation never returns: %s", blocked),
 					map[string]interface{}{"position": n, "blocked": blocked})
 			} else {
-				c.Inconclusive("reading the pool's lists out had not finished after 20 s and was not seen blocked")
+				c.Inconclusive("reading the pool's lists out had not finished after 60 s and was not seen blocked")
 			}
 			return
 		}
 		res := ""
-		fin, blocked := runBounded(20*time.Second, func() {
+		fin, blocked := runBounded(60*time.Second, func() {
 			defer func() {
 				if rr := recover(); rr != nil {
 					tape.Restore()
@@ -653,7 +653,7 @@ func c15History(c *Ctx, r *gen.R, nops int, sample bool) {
 				c.Violate("call-blocks-because-of-earlier-calls", fmt.Sprintf("op %d of a history (%s.%s) never returns: %s; the same call in a fresh process returns. op=%s", n, op.Kind, op.Call, blocked, ob),
 					map[string]interface{}{"op": op, "position": n, "blocked": blocked})
 			} else {
-				c.Inconclusive(fmt.Sprintf("op %d of a history (%s.%s) had not returned after 20 s and was not seen blocked", n, op.Kind, op.Call))
+				c.Inconclusive(fmt.Sprintf("op %d of a history (%s.%s) had not returned after 60 s and was not seen blocked", n, op.Kind, op.Call))
 			}
 			return
 		}
